@@ -28,12 +28,15 @@ let schema_ext (x : sexp) : schema =
 let rule_name = function
   | R_operation -> "operation" | R_field_exists -> "field-exists" | R_leaf_shape -> "leaf-shape"
   | R_arg_known -> "arg-known" | R_arg_unique -> "arg-unique" | R_arg_required -> "arg-required"
+  | R_dir_arg_required -> "dir-arg-required"
   | R_value -> "value" | R_var_position -> "var-position" | R_frag_known -> "frag-known"
   | R_frag_unique -> "frag-unique" | R_frag_type -> "frag-type" | R_frag_cycle -> "frag-cycle"
   | R_spread_possible -> "spread-possible" | R_merge -> "merge" | R_var_unique -> "var-unique"
-  | R_var_input_type -> "var-input-type" | R_var_default -> "var-default" | R_var_defined -> "var-defined"
+  | R_var_input_type -> "var-input-type" | R_var_default_const -> "var-default-const"
+  | R_var_default_value -> "var-default-value" | R_var_defined -> "var-defined"
   | R_var_used -> "var-used" | R_dir_known -> "dir-known" | R_dir_location -> "dir-location"
-  | R_dir_unique -> "dir-unique" | R_subscription -> "subscription" | R_subscription_skip -> "subscription-skip"
+  | R_dir_unique -> "dir-unique" | R_subscription_single -> "subscription-single"
+  | R_subscription_introspection -> "subscription-introspection"
 
 let rec sel_has_abstract_or_var (s : schema) (sel : selection) : bool =
   let abstract n = match find_type n s.s_types with
@@ -58,19 +61,32 @@ let nontrivial (s : schema) (d : document) : bool =
 (* what the normaliser's directivesIncludeSkip stage does before validation: selections that are
    statically excluded (@skip(if: true) / @include(if: false) with a literal) are removed, a
    selection set emptied that way gets a __typename, and variables used only there are dropped *)
-let statically_excluded (dirs : directive list) : bool =
-  List.exists (fun d ->
-      let n = string_of_bytes d.d_name in
-      match d.d_args with
-      | [(k, VBool v)] when string_of_bytes k = "if" -> (n = "skip" && v) || (n = "include" && not v)
-      | _ -> false) dirs
-let rec prune_sels (l : selection list) : selection list =
-  let keep = List.filter (fun s -> not (statically_excluded (match s with
-      | SField (_, _, _, d, _) -> d | SInline (_, d, _) -> d | SSpread (_, d) -> d))) l in
+(* static value of a @skip/@include directive: Some true = the node is removed, Some false = only
+   the directive is removed, None = not static.  A variable counts as static when its definition
+   has a (Boolean) default and the request supplies no value (the harness supplies none). *)
+let garbage = ref false
+let static_dir (vds : vardef list) (d : directive) : bool option =
+  let n = string_of_bytes d.d_name in
+  if n <> "skip" && n <> "include" then None else
+  match d.d_args with
+  | [(k, v)] when string_of_bytes k = "if" ->
+    let bv = match v with
+      | VBool x -> Some x
+      | VVar x -> (match List.find_opt (fun vd -> vd.vd_name = x) vds with
+          | Some { vd_default = Some (VBool y); _ } -> Some y
+          | Some { vd_default = Some _; _ } -> Some !garbage   (* Go indexes its {false,true} table with the ref of a non-boolean default *)
+          | _ -> None)
+      | _ -> None in
+    (match bv with Some x -> Some (if n = "skip" then x else not x) | None -> None)
+  | _ -> None
+let rec prune_sels vds (l : selection list) : selection list =
+  let dirs_of = function SField (_, _, _, d, _) -> d | SInline (_, d, _) -> d | SSpread (_, d) -> d in
+  let keep = List.filter (fun s -> not (List.exists (fun d -> static_dir vds d = Some true) (dirs_of s))) l in
+  let strip ds = List.filter (fun d -> static_dir vds d = None) ds in
   let keep = List.map (function
-      | SField (a, n, args, d, ss) -> SField (a, n, args, d, prune_sels ss)
-      | SInline (c, d, ss) -> SInline (c, d, prune_sels ss)
-      | s -> s) keep in
+      | SField (a, n, args, d, ss) -> SField (a, n, args, strip d, prune_sels vds ss)
+      | SInline (c, d, ss) -> SInline (c, strip d, prune_sels vds ss)
+      | SSpread (n, d) -> SSpread (n, strip d)) keep in
   if keep = [] && l <> [] then [SField (None, b "__typename", [], [], [])] else keep
 let rec value_vars_ml = function
   | VVar n -> [n] | VList l -> List.concat_map value_vars_ml l
@@ -80,18 +96,49 @@ let rec sel_vars_ml = function
   | SField (_, _, args, d, ss) -> List.concat_map (fun (_, v) -> value_vars_ml v) args @ dirs_vars_ml d @ List.concat_map sel_vars_ml ss
   | SInline (_, d, ss) -> dirs_vars_ml d @ List.concat_map sel_vars_ml ss
   | SSpread (_, d) -> dirs_vars_ml d
+let rec sel_spreads_ml = function
+  | SField (_, _, _, _, ss) | SInline (_, _, ss) -> List.concat_map sel_spreads_ml ss
+  | SSpread (n, _) -> [n]
+(* variables used by the operations and the fragments reachable from them *)
 let doc_vars_ml (d : document) =
+  let frags = List.filter_map (function DFrag f -> Some f | _ -> None) d in
+  let rec close seen = function
+    | [] -> seen
+    | n :: rest ->
+      if List.mem n seen then close seen rest
+      else match List.find_opt (fun f -> f.fr_name = n) frags with
+        | Some f -> close (n :: seen) (List.concat_map sel_spreads_ml f.fr_sels @ rest)
+        | None -> close (n :: seen) rest in
+  let roots = List.concat_map (function DOp o -> List.concat_map sel_spreads_ml o.op_sels | _ -> []) d in
+  let reached = close [] roots in
   List.concat_map (function
       | DOp o -> dirs_vars_ml o.op_dirs @ List.concat_map sel_vars_ml o.op_sels
-      | DFrag f -> dirs_vars_ml f.fr_dirs @ List.concat_map sel_vars_ml f.fr_sels) d
+      | DFrag f -> if List.mem f.fr_name reached then dirs_vars_ml f.fr_dirs @ List.concat_map sel_vars_ml f.fr_sels else []) d
 let prune_doc (d : document) : document =
+  let vds = List.concat_map (function DOp o -> o.op_vars | DFrag _ -> []) d in
   let d' = List.map (function
-      | DOp o -> DOp { o with op_sels = prune_sels o.op_sels }
-      | DFrag f -> DFrag { f with fr_sels = prune_sels f.fr_sels }) d in
+      | DOp o -> DOp { o with op_sels = prune_sels vds o.op_sels }
+      | DFrag f -> DFrag { f with fr_sels = prune_sels vds f.fr_sels }) d in
   let before = doc_vars_ml d and after = doc_vars_ml d' in
   List.map (function
       | DOp o -> DOp { o with op_vars = List.filter (fun vd -> not (List.mem vd.vd_name before) || List.mem vd.vd_name after) o.op_vars }
       | x -> x) d'
+
+(* two occurrences of one field (same response key and name) whose argument lists are equal as
+   sets but written in a different order *)
+let rec all_fields_ml = function
+  | SField (a, n, args, _, ss) as f -> f :: List.concat_map all_fields_ml ss
+  | SInline (_, _, ss) -> List.concat_map all_fields_ml ss
+  | SSpread _ -> []
+let has_reordered_args (d : document) : bool =
+  let fs = List.concat_map (function DOp o -> List.concat_map all_fields_ml o.op_sels
+                                   | DFrag f -> List.concat_map all_fields_ml f.fr_sels) d in
+  let sorted a = List.sort compare a in
+  List.exists (fun x -> List.exists (fun y ->
+      match x, y with
+      | SField (a, n, args, _, _), SField (a', n', args', _, _) ->
+        a = a' && n = n' && args <> args' && sorted args = sorted args'
+      | _ -> false) fs) fs
 
 let rec show_sel = function
   | SField (a, n, args, _, ss) ->
@@ -104,6 +151,8 @@ let rec show_sel = function
 let handle (x : sexp) : (string * string) list =
   match x with
   | L [A "c04schema"; A id; sch] -> Hashtbl.replace schemas id (schema_ext sch); []
+  | L [A "c04"; _; _; _; _; L [A "go"; _; S "panic"; _; S msg]] ->
+    [("specfail", "total: the admission sequence panicked: " ^ msg)]
   | L [A "c04"; A id; L (A "meta" :: A kind :: S op :: _); doc; opname; L [A "go"; acc; S stage; S fam; _]] ->
     let s = try Hashtbl.find schemas id with Not_found -> raise (Failure ("unknown schema " ^ id)) in
     let d = doc_of doc in
@@ -112,11 +161,24 @@ let handle (x : sexp) : (string * string) list =
     let spec = spec_valid_b s d opn in
     if go = spec then [("ok", if kind = "mutant" || nontrivial s d then "nt" else "tr")]
     else
-      let rules = String.concat "," (List.map rule_name (spec_report s d opn)) in
-      let pd = prune_doc d in
-      let pruned = if pd = d then "same" else if spec_valid_b s pd opn then "valid" else "invalid" in
-      [("specfail", Printf.sprintf "accept_iff_valid (go=%s spec=%s rules=[%s] kind=%s op=%s stage=%s family=%s pruned=%s)"
-          (if go then "accept" else "reject") (if spec then "valid" else "invalid") rules kind op stage fam pruned)]
+      let show_rules doc = String.concat "," (List.map rule_name (spec_report s doc opn)) in
+      (* what Go effectively validates: statically skipped selections are gone, static
+         @skip/@include directives are removed, fragment definitions (and with them their own
+         directives) are dissolved *)
+      let effective g =
+        garbage := g;
+        let pd = prune_doc d in
+        (pd, List.map (function DFrag f -> DFrag { f with fr_dirs = [] } | x -> x) pd) in
+      let (pd, ed) = effective false in
+      let (pd, ed) = if spec_valid_b s ed opn = go then (pd, ed) else
+          let (pd', ed') = effective true in if spec_valid_b s ed' opn = go then (pd', ed') else (pd, ed) in
+      let eff =
+        if ed = d then "same"
+        else if spec_valid_b s ed opn = go then (if spec_valid_b s pd opn = go then "explains:static-skip" else "explains:fragdef-dirs")
+        else "differs" in
+      [("specfail", Printf.sprintf "accept_iff_valid (go=%s spec=%s rules=[%s] kind=%s op=%s stage=%s family=%s eff=%s erules=[%s])%s"
+          (if go then "accept" else "reject") (if spec then "valid" else "invalid") (show_rules d) kind op stage fam eff (show_rules ed)
+          (if has_reordered_args d then " reordered-arguments" else ""))]
   | L [A "c04merge"; A id; before; after] ->
     let d = doc_of before in
     (match after with
@@ -124,7 +186,7 @@ let handle (x : sexp) : (string * string) list =
      | _ ->
        let go_doc = doc_of after in
        let m = merge_fields d in
-       if m = go_doc then [("ok", if m <> d then "nt" else "tr")]
+       if m = go_doc then [("ok", (if m <> d then "nt" else "tr") ^ (if merge_fields_ignoring_args d <> m then " discriminates-prefix-model" else ""))]
        else
          let show dd = String.concat " | " (List.map (function DOp o -> String.concat " " (List.map show_sel o.op_sels) | DFrag _ -> "frag") dd) in
          [("mismatch", Printf.sprintf "corr:C04/merge model={%s} go={%s}" (show m) (show go_doc))])
